@@ -238,6 +238,10 @@ def check_distinct(facts, rep, RULE):
                 checks.append((i, st))
         ok = ctor_ix is not None and len(checks) >= 2 and all(i < ctor_ix for i, _ in checks)
         last_div = bool(checks) and any(x.get("k") == "macro" and x["name"] == "panic" for x, _ in walk(checks[-1][1]["then"]))
+        if RULE.startswith("C08") and ok and last_div:
+            # C08 asks for an *error*: the last-resort failure is a panic inside a constructor that cannot return one
+            rep.ob(RULE, "variant-collision-is-an-error", False,
+                   "enum values that still collide after both naming passes (e.g. \"red\" and \"Red\") end in `panic!(\"Failed to make unique variant names\")` while the schema is being added, not in an Err", checks[-1][1].get("sp"))
         rep.ob(RULE, "variants-distinct-before-commit", ok and last_div, "variants_unique is tested twice before the enum is built; the second failure aborts" if ok and last_div else "variant identifiers are not checked for distinctness before the enum is built", h.get("sp"))
         vu = [x for x in c.user_fns() if x["fn"].endswith("variants_unique")]
         if vu:
